@@ -72,6 +72,32 @@ CHECKS = {
              "column-permuted, extra-column and dtype-variant frames must be bit-identical to the plain frame, which in turn "
              "is re-run by the model.",
         ref='§6 C10', technique='Lean 4 proof (index/layout not read by the model) + metamorphic check on the real code tied to the model'),
+    'C11': dict(
+        text="Lean theorems on a model of the parameter dictionaries with Python object identity (in-place mutation reaches "
+             "every alias; deepcopy allocates fresh identities; adjust_nested_dict mutates the reference in place and stores "
+             "non-dict items themselves): the separation invariant (global shares no mutable node with any snapshot or caller "
+             "dict; distinct snapshots/callers share no dict node) holds after every history; construction changes nothing that "
+             "existed; global edits / set_prms / reset_prms leave every snapshot untouched; snapshot edits leak nowhere, nor "
+             "into later chunks. Tie: histories on the real objects, contents AND alias classes (id()) after every operation "
+             "reproduced by the model; caller DataFrame fingerprint (values, dtypes, index, buffers) before/after run().",
+        ref='§6 C11', technique='Lean 4 proof (inductive separation invariant over a heap-like model) + identity-level correspondence'),
+    'C12': dict(
+        text="Lean theorems: valid nested partial assignments never crash, keep the key tree, warn once per unknown key, "
+             "override only named keys, are blind to the overridden values of the global; per-call and YAML routes give equal "
+             "effective parameters for any prior global; a direct leaf edit equals a one-leaf nested assignment; reset_prms "
+             "restores all / exactly the named defaults, unknown name => AmpycloudError after resetting the names before it. "
+             "Tie: set_prms/reset/construct histories reproduced by the model; on the real code three routes x scenes give "
+             "bit-identical results, poisoned global, unknown keys, reset over subsets of the 14 names after nested in-place edits.",
+        ref='§6 C12', technique='Lean 4 proof (mutual induction over nested dictionaries) + route-equivalence differential testing'),
+    'C13': dict(
+        category='proof',
+        text="PARTIAL. Proved on the model for any number of chunks and any schedule length: a stage call touches one chunk "
+             "only (frame), calls on different chunks commute, every chunk ends in the state and returns the outputs of its "
+             "own calls alone (projection). Tie: all 70 (quick) / 34650 (thorough) stage-granularity interleavings of 2 / 3 "
+             "real chunks with distinct data and per-call parameters, each compared bit for bit with its isolated run. "
+             "Searched, not proved: real threads under seeded baton pre-emption at line granularity inside ampycloud/* and "
+             "free-running threads (pre-emption inside C extensions and library thread pools is outside any model).",
+        ref='§6 C13', technique='Lean 4 proof (frame/projection by induction over schedules) + exhaustive stage interleavings + seeded thread-schedule search'),
     'C14': dict(
         text="Lean theorems on the stage machine (ten calls on one chunk, deterministic kernels): from the fresh chunk every "
              "history of any length ends in one of the four canonical states of the slices-groups-layers run (so tables, ids, "
@@ -93,6 +119,14 @@ CHECKS = {
              "tables, flag, messages. Tie: real cascade on renamed frames (order-reversing, '10'<'9', substring, whitespace, "
              "long, unicode, empty-ish names) must be bit-identical and hand identical arguments to every third-party kernel.",
         ref='§6 C16', technique='Lean 4 proof (equivariance under injective maps, parametricity in the name type) + metamorphic check'),
+    'C19': dict(
+        text="PARTIAL (float round trip sampled). Lean theorems over exact rationals for the models of shift_and_scale, "
+             "minmax_scale + minrange2minmax, step_scale, apply_scaling, convert_kwargs: strictly order-preserving for "
+             "positive scales, undo(do(x)) = x with the derived keywords, min-max into [0,1] with the minimum range honoured and "
+             "centred, step scaling continuous at every step and strictly monotone, ill-formed step lists refused, NaN stays "
+             "NaN and does not influence the other values. Tie: real functions vs model (1e-9), NaN positions and order "
+             "exactly; binary64 round trip within 1e-6 only sampled.",
+        ref='§6 C19', technique='Lean 4 proof over Rat (piecewise-linear monotonicity, inverse) + checked-oracle correspondence'),
     'C17': dict(
         text="Lean theorems C17_length/_char/_prefix/_at_most_three/_zero_never about the model of "
              "icao.significant_cloud for every integer sequence of any length; the model is tied to the real "
